@@ -209,6 +209,8 @@ TABLE = {
         ("unknown-method-falls-through", VE, "        raise ValueError(f\"Unexpected method: {method!r}\")", "        pass", V, "MPT-rank"),
     ],
     "C12": [
+        ("json-defaults-override-caller", LO, "        kwargs.setdefault(\"default\", str)\n        kwargs.setdefault(\"ensure_ascii\", False)\n        kwargs.setdefault(\"indent\", 2)\n        return json.dumps(self, **kwargs)", "        kwargs = dict(kwargs, default=str, ensure_ascii=False, indent=2)\n        return json.dumps(self, **kwargs)", V, "TRAP-kwmerge"),
+        ("json-defaults-merged-under-caller-silent", LO, "        kwargs.setdefault(\"default\", str)\n        kwargs.setdefault(\"ensure_ascii\", False)\n        kwargs.setdefault(\"indent\", 2)\n        return json.dumps(self, **kwargs)", "        kwargs = dict(dict(default=str, ensure_ascii=False, indent=2), **kwargs)\n        return json.dumps(self, **kwargs)", S, None),
         ("xopen-no-xz", UT, "    if str(path).endswith(\".xz\"):\n        return lzma.open(path, mode, **kwargs)", "    pass", V, "SIB-10"),
         ("lod-read-csv-ignores-sep", LO, "            rows = list(csv.reader(f, dialect=\"unix\", delimiter=sep))", "            rows = list(csv.reader(f, dialect=\"unix\"))", V, "FWD-live"),
         ("read_pickle-plain-open", DF, "        with util.xopen(path, \"rb\") as f:\n            return cls(pickle.load(f))", "        with open(path, \"rb\") as f:\n            return cls(pickle.load(f))", V, "TNT-route"),
@@ -287,6 +289,7 @@ TABLE = {
         ("pull_str-raw-early-return", DT, "    if na.all(): return out.as_string()", "    if na.all(): return out", V, "MPT-5"),
     ],
     "C20": [
+        ("to_string-default-read-at-import", DF, "    def to_string(self, *, max_rows=None, max_width=None, truncate_width=None):", "    def to_string(self, *, max_rows=dataiter.PRINT_MAX_ROWS, max_width=None, truncate_width=None):", V, "TRAP-frozen"),
         ("cells-cut-by-line-count-only", VE, "                    (\"\".join(lines) != strings[i] and truncate_width < inf)):\n                    strings[i] = util.utruncate(lines[0], truncate_width-1) + \"…\"\n            return self.__class__.fast(pad(strings), str)\n        if self.is_string():",
          "                    (len(lines) > 1 and truncate_width < inf)):\n                    strings[i] = util.utruncate(lines[0], truncate_width-1) + \"…\"\n            return self.__class__.fast(pad(strings), str)\n        if self.is_string():", V, "SIB-pad"),
         ("geojson-render-through-modify", GE, "            self = self.copy()\n            self[\"geometry\"] = Vector.fast(geometry, object)", "            self = self.modify(geometry=Vector.fast(geometry, object))", V, "GRD-empty"),
